@@ -104,8 +104,8 @@ func cmdCheck(args []string) {
 	// never read each other's query files
 	outDir = filepath.Join(verifDir(), "out", "vc", fmt.Sprintf("%s.%d", prop, os.Getpid()))
 	os.RemoveAll(outDir)
-	if old, _ := filepath.Glob(filepath.Join(verifDir(), "out", "vc", prop+".*")); len(old) > 40 {
-		for _, d := range old[:len(old)-40] {
+	if old, _ := filepath.Glob(filepath.Join(verifDir(), "out", "vc", prop+".*")); len(old) > 5 {
+		for _, d := range old[:len(old)-5] {
 			os.RemoveAll(d) // keep the disk bounded: directories of runs that reported violations are kept for replay
 		}
 	}
@@ -432,6 +432,24 @@ func cmdCheck(args []string) {
 	data, _ := json.MarshalIndent(ev, "", " ")
 	os.WriteFile(filepath.Join(verifDir(), "evidence", prop+".json"), data, 0o644)
 	fmt.Printf("%s: %d obligations, %d discharged, %d known findings, %d violations, %d functions, %.1fs\n", prop, len(obls)-len(knownHit), discharged, len(knownHit), len(violations), len(fl), time.Since(start).Seconds())
+	if len(violations) == 0 && len(problems) == 0 {
+		os.RemoveAll(outDir) // nothing to replay
+	} else {
+		// keep only the queries of the violated obligations (a full set is close to a gigabyte)
+		keep := map[string]bool{}
+		for _, o := range violations {
+			for _, suf := range []string{"", ".l1", ".cvc5"} {
+				keep[obFile(o, suf)] = true
+			}
+		}
+		if files, err := filepath.Glob(filepath.Join(outDir, "*")); err == nil {
+			for _, f := range files {
+				if !keep[f] {
+					os.Remove(f)
+				}
+			}
+		}
+	}
 	if boundedFail != "" {
 		os.MkdirAll(repDir, 0o755)
 		bp := filepath.Join(repDir, "bounded.json")
@@ -442,9 +460,6 @@ func cmdCheck(args []string) {
 	}
 	if rtcFail > 0 {
 		os.Exit(1)
-	}
-	if len(violations) == 0 && len(problems) == 0 && boundedFail == "" {
-		os.RemoveAll(outDir) // nothing to replay
 	}
 	if len(violations) > 0 || len(problems) > 0 || len(obls) == 0 {
 		if len(obls) == 0 {
